@@ -1,6 +1,7 @@
 package props
 
 import (
+	"encoding/json"
 	"fmt"
 
 	"verif/plan"
@@ -118,6 +119,67 @@ func genC15(seed uint64, tier string) *plan.Plan {
 		}
 		ph.Clients = append(ph.Clients, sc)
 	}
+	// sixth path: the same sequence inside pipelines of the cluster client (batches of 2-5 commands,
+	// queued, then Exec); a multi-key Delete becomes one Delete per key
+	{
+		sc := plan.Script{ID: len(c15Paths) + 1, Kind: "ctl"}
+		key := func(i int) string { return fmt.Sprintf("pipe-k%d", i) }
+		var group []string
+		for g := 0; g < ngroup; g++ {
+			group = append(group, fmt.Sprintf("pipe-g%d", g))
+		}
+		for _, g := range group {
+			sc.Ops = append(sc.Ops, plan.Op{K: "put", Key: g, Val: "x" + g, Tag: "cc"})
+		}
+		idxMap := map[int]int{}
+		var batch []string
+		var batchAbs []int
+		touched := map[string]bool{}
+		limit := r.Range(2, 5)
+		flush := func() {
+			if len(batch) == 0 {
+				return
+			}
+			for _, ai := range batchAbs {
+				idxMap[ai] = len(sc.Ops)
+			}
+			sc.Ops = append(sc.Ops, plan.Op{K: "pipe", Tag: "cc", Args: batch})
+			for _, k := range sortedSet(touched) {
+				sc.Ops = append(sc.Ops, plan.Op{K: "get", Key: k, Tag: "cc"})
+			}
+			batch, batchAbs, touched = nil, nil, map[string]bool{}
+			limit = r.Range(2, 5)
+		}
+		for ai, a := range seq {
+			op := a.op
+			if op.K == "ctl.sleep_rel" {
+				flush()
+				op.Ref = idxMap[op.Ref]
+				sc.Ops = append(sc.Ops, op)
+				continue
+			}
+			var subs []plan.Op
+			if a.keyI >= 0 {
+				op.Key = key(a.keyI)
+				subs = []plan.Op{op}
+			} else {
+				for _, g := range group {
+					subs = append(subs, plan.Op{K: "del", Key: g})
+				}
+			}
+			for _, so := range subs {
+				b, _ := json.Marshal(so)
+				batch = append(batch, string(b))
+				touched[so.Key] = true
+			}
+			batchAbs = append(batchAbs, ai)
+			if len(batch) >= limit {
+				flush()
+			}
+		}
+		flush()
+		ph.Clients = append(ph.Clients, sc)
+	}
 	p.Phases = []plan.Phase{ph}
 	sig := ""
 	for _, a := range seq {
@@ -149,7 +211,38 @@ func genC15(seed uint64, tier string) *plan.Plan {
 	return p
 }
 
+// expandPipes replaces every pipeline record by one record per queued command (in queue order,
+// all within the pipeline's invoke/return interval) so that the sequential model sees them like
+// the commands of the other paths. Event stamps are scaled to make room for the order.
+func expandPipes(his []plan.Rec) []plan.Rec {
+	out := make([]plan.Rec, 0, len(his))
+	for i := range his {
+		r := his[i]
+		r.Inv, r.Ret = r.Inv*64, r.Ret*64
+		if r.Op.K != "pipe" {
+			out = append(out, r)
+			continue
+		}
+		for j, a := range r.Op.Args {
+			var so plan.Op
+			if json.Unmarshal([]byte(a), &so) != nil {
+				continue
+			}
+			so.Tag = "pipe"
+			sr := plan.Rec{Err: r.Err}
+			if r.Err == "" && j < len(r.Keys) {
+				json.Unmarshal([]byte(r.Keys[j]), &sr)
+			}
+			sr.Phase, sr.Client, sr.Idx, sr.Op = r.Phase, r.Client, r.Idx, so
+			sr.Inv, sr.Ret, sr.TInv, sr.TRet = r.Inv+uint64(j)+1, r.Ret, r.TInv, r.TRet
+			out = append(out, sr)
+		}
+	}
+	return out
+}
+
 func oracleC15(p *plan.Plan, his []plan.Rec, res *plan.Result) {
+	his = expandPipes(his)
 	oracleSeq("C15")(p, his, res)
 	paths := map[string]bool{}
 	for i := range his {
